@@ -123,10 +123,12 @@ def normalise (m : Machine) (s : State Nat) : State Nat :=
   { leaf := fun c => lf.getD c 0, cache := fun c => ch.getD c none,
     flag := fun j f => (fl.getD j #[]).getD f false }
 
-def runSteps (m : Machine) : List (Op Nat) → State Nat → List String → List String
+/-- one reply step per request token; a token may be a comma-joined group of operations (`E1,E2,E3`: the
+harness's "evaluate everything"), reported once at its end -/
+def runSteps (m : Machine) : List (List (Op Nat)) → State Nat → List String → List String
   | [], _, acc => acc.reverse
-  | op :: ops, s, acc =>
-    let r := run m hashF [op] s
+  | grp :: ops, s, acc =>
+    let r := run m hashF grp s
     let s' := normalise m r.st
     runSteps m ops s' (showState m r.raised s' :: acc)
 
@@ -142,7 +144,7 @@ def handle (line : String) : String :=
       | none => "bad-op nodes"
       | some nodes =>
       match cs.mapM (parseCell nodes), ls.mapM (fun w => (parsePairs "=" w)), fs.mapM (fun w => parsePairs ":" w),
-            os.mapM parseOp with
+            os.mapM (fun w => (w.splitOn ",").mapM parseOp) with
       | some cells, some lvs, some fls, some ops =>
         let m : Machine := { table := theTable, nodes := nodes, cells := cells }
         let lv := mkVal lvs.flatten
